@@ -141,7 +141,9 @@ theorem exec_commit3H (p : Nat) (env : Env) (b l : String) (id : Nat)
       -- sequences
       seqs'.find? (·.name == mvSeqFull b) = some { sqM with last := sqM.next + pm.length - 1, called := true } ∧
       seqs'.find? (·.name == fullT) = some { sqT with last := sqT.next, called := true } ∧
-      seqs'.find? (·.name == tmSeqFull b) = some { sqH with last := sqH.next, called := true } := by
+      seqs'.find? (·.name == tmSeqFull b) = some { sqH with last := sqH.next, called := true } ∧
+      (∀ other, other ≠ mvSeqFull b → other ≠ fullT → other ≠ tmSeqFull b →
+        seqs'.find? (·.name == other) = s.w.seqs.find? (·.name == other)) := by
   have hxid := hst.tx.xid
   -- 1. UpdateVolumes
   have hAv : AvState s.enter b l rsA nrA :=
@@ -234,7 +236,7 @@ theorem exec_commit3H (p : Nat) (env : Env) (b l : String) (id : Nat)
   refine ⟨rsA', nrA', rowsM', seqs', (((((s.bump (5 + 4 * pm.length)).withSeqs seqs').withTable (avT b rsA' nrA')).withTable
       ((txT b trigsT (nrT + 1)).withRows (newVer s.xid (s.nextCid + 1) nrT (txVals x) :: rowsT))).withTable
       ((tmT b (nrH + 1)).withRows (newVer s.xid (s.nextCid + 2) nrH (tmVals (tmOf x sqH.next)) :: rowsH))).withTable
-      ((mvT b trigsM (nrM + pm.length)).withRows rowsM'), ?_, rfl, hinvA', ?_, ?_, hmv1, hmv2, hmvInv, hseqM, ?_, ?_⟩
+      ((mvT b trigsM (nrM + pm.length)).withRows rowsM'), ?_, rfl, hinvA', ?_, ?_, hmv1, hmv2, hmvInv, hseqM, ?_, ?_, ?_⟩
   · have hstate : ((((((((s.bump 1).withTable (avT b rsA' nrA')).bump 3).withSeqs
         (seqsSet (tmSeqFull b) sqH.next (seqsSet fullT sqT.next s.w.seqs))).withTable
         ((txT b trigsT (nrT + 1)).withRows (newVer s.xid (s.nextCid + 1) nrT (txVals x) :: rowsT))).withTable
@@ -268,6 +270,11 @@ theorem exec_commit3H (p : Nat) (env : Env) (b l : String) (id : Nat)
     apply find_seqsSet
     rw [find_seqsSet_ne fullT (tmSeqFull b) sqT.next (fun e => hst.seqNeH e.symm)]
     exact hst.histSeq
+  · intro other h1 h2 h3
+    have := hseqO other h1
+    rw [this]
+    show (seqsSet (tmSeqFull b) sqH.next (seqsSet fullT sqT.next s.w.seqs)).find? (·.name == other) = _
+    rw [find_seqsSet_ne (tmSeqFull b) other sqH.next h3, find_seqsSet_ne fullT other sqT.next h2]
 
 /-- **Refinement of `Spec.applyTx` (CommitTransaction without the account upsert), transaction metadata history on.** As
     `commit_refines_applyTx`; additionally the first metadata revision `tmOf x` of the new transaction is appended to
@@ -324,7 +331,7 @@ theorem commit_refines_applyTx_H (p : Nat) (env : Env) (b l : String) (id : Nat)
       exact this
     have hsf : SeqFrom sqM.next (pm.map (·.2)) := by
       rw [hpm']; exact seqFrom_toRows ms sqM.next _ _ _ _ hidM
-    obtain ⟨rsA', nrA', rowsM', seqs', s', hrun, hs', hinvA, hav1, hav2, hmv1, hmv2, hmvInv, hsM, hsT, hsH⟩ :=
+    obtain ⟨rsA', nrA', rowsM', seqs', s', hrun, hs', hinvA, hav1, hav2, hmv1, hmv2, hmvInv, hsM, hsT, hsH, _⟩ :=
       exec_commit3H p env b l id rsA nrA trigsT nrT rowsT fullT sqT AT1 AT2 trAT fAT nrH rowsH sqH trigsM B1 B2 trB A1 A2 trA item wher dflt_ fB
         setE whereU fA nrM rowsM sqM s hst vrows hvne hvnd st.accountsVolumes hwf habsA L hl x hlit (by rw [hid]; exact hidT)
         (by rw [hid]; omega) (by rw [hid]; exact hidR) href pm hne hlits hsf hrange hnc st.moves habsM
